@@ -558,8 +558,18 @@ func c12RuleTable(r *Report, E *envRoles) {
 		seen := map[int64]bool{}
 		// which label constants does this loop compare the normalised label with?
 		compared := map[int64]bool{}
-		for _, p := range P.enumPaths(fn, L.body, func(b *ssa.BasicBlock) bool { return b == L.header }, false) {
+		views := P.bodyViews(fn, L)
+		tableHit := map[*Path][]int64{}
+		for _, p := range views {
 			for _, c := range p.conds {
+				if keys, ok := P.tableKeysTested(c, norm); ok {
+					for _, k := range keys {
+						compared[k] = true
+					}
+					if c.Val {
+						tableHit[p] = keys
+					}
+				}
 				if c.Pred.Op != "binop" || c.Pred.S != "==" {
 					continue
 				}
@@ -581,12 +591,33 @@ func c12RuleTable(r *Report, E *envRoles) {
 		for _, k := range need {
 			r.ob("R12.4", fmt.Sprintf("%s:%s:%d:refusing-arm", shortFn(fn), lr.bucket, k), fn, nil, fmt.Sprintf("label %d has a refusing arm in the %s bucket", k, lr.bucket)).check(compared[k], "label is compared and (below) never accepted", fmt.Sprintf("the %s loop never compares the label with %d: such an entry is accepted", lr.bucket, k))
 		}
-		for _, p := range P.enumPaths(fn, L.body, func(b *ssa.BasicBlock) bool { return b == L.header }, false) {
-			if !p.feasible() || p.ret != nil {
+		for _, p := range views {
+			if p.ret != nil {
 				continue // returns from the body are failures (checked below)
 			}
 			r.paths++
 			lbl, known, compared := labelOf(p)
+			if keys, hit := tableHit[p]; hit {
+				// the label is one of the table's keys and the entry is passed over
+				for _, k := range keys {
+					for _, nk := range need {
+						if k == nk {
+							r.ob("R12.4", fmt.Sprintf("%s:%s:%d", shortFn(fn), lr.bucket, k), fn, nil, fmt.Sprintf("label %d is never accepted in the %s bucket", k, lr.bucket)).fail("an entry found in the refusal table can be passed over without an error")
+						}
+					}
+				}
+				compared = true
+			}
+			if _, tested := func() ([]int64, bool) {
+				for _, c := range p.conds {
+					if ks, ok := P.tableKeysTested(c, norm); ok {
+						return ks, true
+					}
+				}
+				return nil, false
+			}(); tested {
+				compared = true
+			}
 			normOK := false
 			for _, c := range p.conds {
 				if c.Val && c.Pred.Op == "res" && c.Pred.S == "1" && c.Pred.Args[0].Op == "call" && c.Pred.Args[0].S == shortFn(norm) {
@@ -672,6 +703,67 @@ func c12RuleTable(r *Report, E *envRoles) {
 	}
 	// one function for producer and verifier: by role discovery (called by both)
 	r.ob("R12.4", shortFn(fn)+":shared", fn, nil, "producer and verifier call the same rule function").ok("called by both "+shortFn(E.sign)+" and "+shortFn(E.verify), false)
+}
+
+// bodyViews: the paths through a loop body with their conditions expanded
+// through the helpers whose outcome they test (one view per combination of
+// helper paths) and their terms expanded, so that a label normalised or
+// compared inside a helper reads like the inline code.
+func (P *Prog) bodyViews(fn *ssa.Function, L *loopInfo) []*Path {
+	var out []*Path
+	// the rules' own vocabulary stays unexpanded
+	vocab := map[*ssa.Function]bool{P.labelNormalizer(): true}
+	for _, pc := range P.valuePredicates() {
+		vocab[pc.fn] = true
+	}
+	keep := func(f *ssa.Function) bool { return vocab[f] }
+	for _, p := range P.enumPaths(fn, L.body, func(b *ssa.BasicBlock) bool { return b == L.header }, false) {
+		if !p.feasible() {
+			continue
+		}
+		for _, alt := range P.expandCondsF(p.conds, 0, keep) {
+			q := *p
+			q.conds = nil
+			for _, c := range alt {
+				q.conds = append(q.conds, c)
+				if c.Pred.contains(func(u *Term) bool { return u.Op == "call" && P.calleeOfTerm(u) != nil }) {
+					if e := normFact(P.terms.expand(c.Pred, 1), c.Val); e.String() != c.String() {
+						q.conds = append(q.conds, e)
+					}
+				}
+			}
+			if q.feasible() {
+				out = append(out, &q)
+			}
+		}
+	}
+	return out
+}
+
+// tableKeysTested: the condition is a lookup of the normalised label in a
+// constant package-level map: returns the map's integer keys.
+func (P *Prog) tableKeysTested(c Fact, norm *ssa.Function) ([]int64, bool) {
+	t := c.Pred
+	if !(t.Op == "res" && t.S == "1" && len(t.Args) == 1 && t.Args[0].Op == "lookup" && len(t.Args[0].Args) == 2) {
+		return nil, false
+	}
+	lk := t.Args[0]
+	if !(lk.Args[0].Op == "load" && lk.Args[0].Args[0].Op == "global") || !strings.Contains(lk.Args[1].String(), "call<"+shortFn(norm)+">") {
+		return nil, false
+	}
+	tab, ok := P.constGlobalMap(lk.Args[0].Args[0].S)
+	if !ok {
+		return nil, false
+	}
+	var keys []int64
+	for k := range tab {
+		n, isInt := termConstInt(T("const", k))
+		if !isInt {
+			return nil, false
+		}
+		keys = append(keys, n)
+	}
+	return keys, true
 }
 
 func mutC12() []mutant {
